@@ -25,6 +25,12 @@ Theorem C27_facts :
   = true.
 Proof. vm_compute. reflexivity. Qed.
 
+(* structure read off portmapper.go by astfacts: SET and UNSET of every version sit behind the
+   isLoopbackAddr guard (the model consults these facts; C27_loopback is proved for the current ones) *)
+Theorem C27_guards_present :
+  f_pm_v2_set_guarded && f_pm_v2_unset_guarded && f_pm_rpcb_set_guarded && f_pm_rpcb_unset_guarded = true.
+Proof. vm_compute. reflexivity. Qed.
+
 (* the version range announced in PROG_MISMATCH replies is exactly the set of versions served *)
 Theorem C27_version_range : forall v, supported v = (VERS_LOW <=? v) && (v <=? VERS_HIGH).
 Proof. exact supported_range. Qed.
@@ -216,6 +222,7 @@ Example C27_pm_call_with_credential :
 Proof. eexists. split; [vm_compute; reflexivity|]. cbn. auto. Qed.
 
 Print Assumptions C27_facts.
+Print Assumptions C27_guards_present.
 Print Assumptions C27_version_range.
 Print Assumptions C27_loopback.
 Print Assumptions C27_guard_exact.
